@@ -14,7 +14,7 @@ pub enum Dec { Need, Got(Packet, usize), Bad(usize), FrameErr, Panic, Other(Stri
 thread_local! { static SHARED: [Codec; 2] = [Codec::new(mode_of(false)), Codec::new(mode_of(true))]; }
 pub fn decode_buf(compressed: bool, buf: &[u8]) -> Dec {
     let mut b = BytesMut::from(buf);
-    match guard(|| SHARED.with(|c| c[compressed as usize].decode(&mut b))) {
+    match watched("Codec::decode", || format!("{} {}", mode_tag(compressed), hex(buf)), || guard(|| SHARED.with(|c| c[compressed as usize].decode(&mut b)))) {
         None => Dec::Panic,
         Some(Ok(None)) => if b.len() == buf.len() { Dec::Need } else { Dec::Other("Ok(None) but the buffer changed".into()) },
         Some(Ok(Some(p))) => Dec::Got(p, buf.len() - b.len()),
@@ -156,7 +156,7 @@ pub fn run_c01(a: &Args) {
 pub fn run_c04(a: &Args) {
     let mut rng = Rng::new(a.seed);
     let check = |compressed: bool, buf: &[u8], st: &mut Stats| -> String {
-        let d = watched("Codec::decode", || format!("{} {}", mode_tag(compressed), hex(buf)), || decode_buf(compressed, buf));
+        let d = decode_buf(compressed, buf);   // (watched: a decode that does not return is reported with its input)
         let id = format!("{} {}", mode_tag(compressed), hex(buf));
         let ann = if buf.is_empty() { 0 } else { buf[0] as usize * if compressed { 4 } else { 1 } };
         let max = if compressed { 1020 } else { 255 };
